@@ -280,6 +280,20 @@ def edge_cases(g, k):
     a condition of the wrong kind, or mixing kinds, for `key=` / `index=` / `value=`"""
     r = g.r
     out = []
+    # one case per arm of the source / argument decision of `get_data`
+    fixed = [(None, {}), (None, []), (None, 0), (None, ""), (None, None), ({}, {}), ([], None), ({}, None), ({}, {"a": 1}),
+             ({"a": 1}, {}), ({"a": 1}, None), ({"a": 1}, {"a": 2}), (None, {"a": 2}), (None, "text"), (None, 5)]
+    for src, arg in fixed:
+        for objs, parts_py in (([], ""), (["a"], "'a'")):
+            path = DP.DataPath(*objs, source_data=src) if src is not None else DP.DataPath(*objs)
+            c = Case("get_entry", {"parts": parts_py, "source": None if src is None else enc.enc_val(src),
+                                   "arg": None if arg is None else enc.enc_val(arg), "return_paths": True})
+            c.py = (f"from valida.datapath import *\nprint(DataPath({parts_py}{', ' if parts_py else ''}source_data={src!r})"
+                    f".get_data({arg!r}, return_paths=True))")
+            impl = enc.outcome(lambda: enc_result(path.get_data(arg, return_paths=True)))
+            c.ask(["get", enc.enc_path(path), None if arg is None else enc.enc_val(arg), True], impl, "get")
+            c.features.add(("entry-fixed", src is None, bool(src), type(arg).__name__, bool(arg)))
+            out.append(c)
     for _ in range(k):
         x = r.random()
         if x < 0.6:
